@@ -9,7 +9,7 @@ NOTES = 'Exit codes of ./check: 0 all obligations discharged; 1 VIOLATION (defin
 
 PENDING = 'check not built yet in this session (planned in DESIGN.md section 5)'
 NOT_APPLICABLE = {
-    'C02': PENDING, 'C03': PENDING, 'C05': PENDING, 'C06': PENDING, 
+    'C02': PENDING, 'C03': PENDING, 'C06': PENDING, 
     'C09': PENDING, 'C10': PENDING, 'C14': PENDING, 'C15': PENDING, 'C16': PENDING, 'C18': PENDING,
     'C11': 'numerical accuracy of a 1000-bin f32 convolution against an exact enumeration over K^M words: floats are uninterpreted in Verus and the convolution is out of reach of CBMC; no contract within reach expresses or decides it (DESIGN.md 5/C11)',
     'C12': 'HashMap<i64,f64> dynamic programming bounded by exact tail probabilities of the true score distribution: a protocol-level real-number argument (TFM-PVALUE paper), not expressible over the real code with Verus (opaque floats, no HashMap iteration specs) or Kani (unbounded loops over float maps) (DESIGN.md 5/C12)',
@@ -18,6 +18,12 @@ NOT_APPLICABLE = {
 }
 
 CHECKS = {
+    'C05': {
+        'text': 'Unbounded deductive proof (Verus) of Encode::{encode_into, encode_raw, encode} (default impls) on verbatim bodies for every alphabet and every byte string: success iff every byte is valid, result symbol i is the symbol of byte i, failure reports the first offending byte. The per-byte table facts (from_ascii/as_ascii/as_index for Nucleotide and AminoAcid) are discharged by loop-free Kani harnesses over all 256 bytes (complete). SSE2/AVX2 encoders: bounded Kani stand-ins (thorough tier) only.',
+        'design_ref': 'DESIGN.md section 5, C05',
+        'note': 'Trusted: Verus/Z3, Kani/CBMC; assert_eq!/set_len wrappers (A-W3, A-V2); the link between the abstract (valid_ascii, of_ascii) pair used by Verus and the real match tables is the Kani table harness. Display round trip is covered by the table fact as_ascii(from_ascii(b)) == b, not by a Verus unit on fmt.',
+        'technique': 'contract-based deductive verification (Verus) + complete Kani table harnesses',
+    },
     'C01': {
         'text': 'Unbounded deductive proof (Verus) of the generic scoring pipeline on verbatim bodies: Score::{score_rows_into, score_into, score} (generic element type), StripedScores::{resize, offset, iter, Index}, scores::Iter::{new, get, len}, ScoringMatrix::score_position, and the striping units of C04; composed by machine-checked lemmas (lemma_layout, lemma_gsum_is_lsum, theorem_c01) into the property statement: exactly L-M+1 values, value i = left-to-right sum of matrix[j][sequence[i+j]], for all lengths/widths/column counts/row sub-ranges. The SSE2/AVX2 kernels and the dispatcher arms are covered only by bounded Kani stand-ins (thorough tier, never counted as discharged).',
         'design_ref': 'DESIGN.md section 5, C01',
